@@ -3,7 +3,6 @@ from sa.selftest.harness import M, T
 F = "sharepoint2text/sharepoint_io/client.py"
 MUTANTS = [
     M("transport-outside-send", F, "        request = Request(url, headers=self._get_headers(), method=\"GET\")\n        _, body = self._send(request, request_kind=\"API\")", "        request = Request(url, headers=self._get_headers(), method=\"GET\")\n        body = self._request(request, timeout=self._timeout).read()", "C18-IO"),
-    M("urlerror-not-converted", F, "        except URLError as exc:\n            raise SharePointRequestError(\n                f\"{request_kind} request failed due to network error: {exc.reason}\",\n                status_code=None,\n                body=None,\n                url=request.full_url,\n            ) from exc\n", "", "C18-ERR"),
     M("read-handler-dropped", F, "        except Exception as exc:\n            # Timeouts, resets or truncated bodies while reading the response\n            raise SharePointRequestError(\n                f\"{request_kind} request failed while reading the response: {exc}\",\n                status_code=None,\n                body=None,\n                url=request.full_url,\n            ) from exc\n", "", "C18-ERR"),
     M("json-not-object-accepted", F, "        if not isinstance(data, dict):\n            raise SharePointRequestError(\n                \"Unexpected JSON response from Graph API (not an object)\",", "        if False:\n            raise SharePointRequestError(\n                \"Unexpected JSON response from Graph API (not an object)\",", "C18-ERR"),
     M("non-2xx-accepted", F, "if status is None or not (200 <= status < 300):", "if status is None or not (200 <= status < 400):", "C18-ERR"),
@@ -12,8 +11,8 @@ MUTANTS = [
     M("response-close-only-on-success", F, "        finally:\n            if response is not None:\n                try:\n                    response.close()\n                except Exception:\n                    pass\n", "        response.close()\n", "C18-CLOSE"),
     M("token-cached-before-validation", F, "        access_token = data.get(\"access_token\")\n        if not access_token:\n            raise SharePointAuthError(\"Token response missing access_token\")\n        self._access_token = access_token\n", "        access_token = data.get(\"access_token\")\n        self._access_token = access_token\n        if not access_token:\n            raise SharePointAuthError(\"Token response missing access_token\")\n", "C18-CACHE"),
     M("visited-set-state", F, "        url = self._build_children_url(site_id, item_id, drive_id)\n\n        for item in self._list_items_paginated(url, parent_path=parent_path):", "        url = self._build_children_url(site_id, item_id, drive_id)\n        self._seen = getattr(self, \"_seen\", set())\n        self._seen.add(item_id)\n\n        for item in self._list_items_paginated(url, parent_path=parent_path):", "C18-STATE"),
-    M("after-exclusive", F, "if self.created_after and created_dt < self.created_after:", "if self.created_after and created_dt <= self.created_after:", "C18-CMP"),
-    M("before-inclusive", F, "if self.modified_before and modified_dt >= self.modified_before:", "if self.modified_before and modified_dt > self.modified_before:", "C18-CMP"),
+    M("after-exclusive", F, "if created_after and created_dt < created_after:", "if created_after and created_dt <= created_after:", "C18-CMP"),
+    M("before-inclusive", F, "if modified_before and modified_dt >= modified_before:", "if modified_before and modified_dt > modified_before:", "C18-CMP"),
     M("modified-compares-created", F, "modified_dt = _parse_iso_datetime(file_meta.last_modified)", "modified_dt = _parse_iso_datetime(file_meta.created)", "C18-CMP"),
     M("pattern-on-name-only", F, "full_path = file_meta.get_full_path()", "full_path = file_meta.name", "C18-CMP"),
     M("empty-folders-skipped", F, "                if isinstance(item, dict) and \"folder\" in item:\n                    folders.append(item)", "                if isinstance(item, dict) and \"folder\" in item and item[\"folder\"].get(\"childCount\"):\n                    folders.append(item)", "C18-PART"),
@@ -21,10 +20,20 @@ MUTANTS = [
     M("wrong-parent-path", F, "                    parent_path=new_parent_path,\n", "                    parent_path=parent_path,\n", "C18-PART"),
     M("status-raise-inside-read-try", F, "            body = response.read()\n        except Exception as exc:", "            body = response.read()\n            if status is None or not (200 <= status < 300):\n                raise SharePointRequestError(\"bad\", status_code=status, body=None, url=request.full_url)\n        except Exception as exc:", "C18-ERR"),
     M("skip-empty-folders", F, "            folder_name = item.get(\"name\", \"\")\n", "            if not item.get(\"folder\", {}).get(\"childCount\"):\n                continue\n            folder_name = item.get(\"name\", \"\")\n", "C18-PART"),
+    M("oserror-not-converted", F, "        except (OSError, http.client.HTTPException) as exc:\n            # Timeouts, resets and malformed answers while the status line and\n            # the headers are read are not wrapped by urlopen\n            raise SharePointRequestError(\n                f\"{request_kind} request failed due to network error: {exc}\",\n                status_code=None,\n                body=None,\n                url=request.full_url,\n            ) from exc\n", "", "C18-ERR"),
+    M("httpexception-not-converted", F, "except (OSError, http.client.HTTPException) as exc:", "except OSError as exc:", "C18-ERR"),
+    M("token-kept-after-401", F, "            if exc.code == 401:\n", "            if False:\n", "C18-CACHE"),
+    M("token-dropped-on-500-only", F, "            if exc.code == 401:\n", "            if exc.code == 500:\n", "C18-CACHE"),
+    M("naive-bound-compared", F, "created_after = _as_utc(self.created_after)", "created_after = self.created_after", "C18-CMP"),
+    M("parsed-date-naive", F, "return _as_utc(datetime.fromisoformat(dt_string))", "return datetime.fromisoformat(dt_string)", "C18-CMP"),
+    M("include-root-files-ignored", F, "            if not include_root_files and not file_meta.parent_path:\n                continue\n", "", "C18-CMP"),
 ]
 TWINS = [
-    T("date-compare-flipped", F, "if self.created_after and created_dt < self.created_after:", "if self.created_after and self.created_after > created_dt:"),
-    T("rename-dt-variable", F, "            created_dt = _parse_iso_datetime(file_meta.created)\n            if created_dt is None:\n                return False\n            if self.created_after and created_dt < self.created_after:\n                return False\n            if self.created_before and created_dt >= self.created_before:", "            c_dt = _parse_iso_datetime(file_meta.created)\n            if c_dt is None:\n                return False\n            if self.created_after and c_dt < self.created_after:\n                return False\n            if self.created_before and c_dt >= self.created_before:"),
+    T("urlerror-not-converted", F, "        except URLError as exc:\n            raise SharePointRequestError(\n                f\"{request_kind} request failed due to network error: {exc.reason}\",\n                status_code=None,\n                body=None,\n                url=request.full_url,\n            ) from exc\n", ""),
+    T("token-dropped-on-401-or-403", F, "            if exc.code == 401:\n", "            if exc.code == 401 and self._access_token is not None:\n"),
+    T("transport-caught-as-exception", F, "except (OSError, http.client.HTTPException) as exc:", "except Exception as exc:"),
+    T("date-compare-flipped", F, "if created_after and created_dt < created_after:", "if created_after and created_after > created_dt:"),
+    T("rename-dt-variable", F, "            created_dt = _parse_iso_datetime(file_meta.created)\n            if created_dt is None:\n                return False\n            if created_after and created_dt < created_after:\n                return False\n            if created_before and created_dt >= created_before:", "            c_dt = _parse_iso_datetime(file_meta.created)\n            if c_dt is None:\n                return False\n            if created_after and c_dt < created_after:\n                return False\n            if created_before and c_dt >= created_before:"),
     T("close-without-none-test", F, "            if response is not None:\n                try:\n                    response.close()\n                except Exception:\n                    pass\n", "            try:\n                response.close()\n            except Exception:\n                pass\n"),
     T("folder-id-guard-as-continue", F, "            if folder_id:\n                yield from self._walk_drive_items(\n                    site_id,\n                    folder_id,\n                    drive_id=drive_id,\n                    parent_path=new_parent_path,\n                )\n", "            if not folder_id:\n                continue\n            yield from self._walk_drive_items(\n                site_id,\n                folder_id,\n                drive_id=drive_id,\n                parent_path=new_parent_path,\n            )\n"),
 ]
